@@ -120,6 +120,9 @@ func runChunkedCase(c hCase, w *rig.Writer) (coq string, ok bool, fail *rig.GoFa
 	stats = map[string]bool{}
 	fk := fakemc.New()
 	fk.RealClock = func() int64 { return time.Now().Unix() }
+	// in three of four cases the backend's replies reach the handler in pieces (1..n bytes per
+	// read): what the handler returns must not depend on how the reply stream is segmented
+	fk.Segment = []int{0, 1, 5, 19}[(len(c.Ops)+len(c.Keys[0]))%4]
 	conn := fk.Pipe()
 	h := chunked.NewHandler(conn)
 	defer h.Close()
